@@ -550,6 +550,147 @@ class Engine:
             return False
         return True
 
+    def inline_candidates(self, name):
+        """functions named `name` that the current contract allows to be executed at the call site (incl. constructors)"""
+        out = []
+        pol = set(self.contract.inline_callees) if self.contract is not None else set()
+        for key in pol:
+            m, q = key.split(":")
+            last = q.split(".")[-1]
+            try:
+                cmod = source.load(m)
+            except Exception:
+                continue
+            if q not in cmod.functions:
+                continue
+            if last == name:
+                out.append((cmod, q, False))
+            elif last == "__init__" and q.split(".")[0] == name:
+                out.append((cmod, q, True))
+        return out
+
+    def havoc_plan(self, stmts):
+        """what a loop body may modify: (names havoc'd as a whole, attribute paths havoc'd individually).
+        Stores `a.b.c = v` / `a.b[i] = v` / `a.b.append(v)` havoc the path up to the first subscript; calls with known contracts
+        havoc exactly the contract's `modifies` mapped onto the receiver / argument expressions; other impure calls havoc the
+        receiver and path arguments as a whole; a name bound to a container element (alias) makes its container root havoc'd."""
+        whole, paths = set(), set()
+        amap = alias_roots(stmts)
+
+        def path_of(n):
+            chain, cur = [], n
+            while isinstance(cur, (ast.Attribute, ast.Subscript)):
+                chain.append(cur)
+                cur = cur.value
+            if not isinstance(cur, ast.Name):
+                return None
+            attrs = []
+            for c in reversed(chain):
+                if isinstance(c, ast.Attribute):
+                    attrs.append(c.attr)
+                else:
+                    break
+            return cur.id, tuple(attrs)
+
+        def add(po, rest=()):
+            if po is None:
+                return
+            root, attrs = po
+            if root in amap:
+                whole.update(amap[root])       # stores through an alias reach the container it was taken from
+            if not attrs and not rest:
+                whole.add(root)
+            else:
+                paths.add((root, tuple(attrs) + tuple(rest)))
+
+        for st in stmts:
+            for n in ast.walk(st):
+                if isinstance(n, (ast.Assign, ast.AugAssign, ast.AnnAssign)):
+                    for t in (n.targets if isinstance(n, ast.Assign) else [n.target]):
+                        if isinstance(t, (ast.Tuple, ast.List)):
+                            whole.update(names_in_target(t))
+                        else:
+                            add(path_of(t))
+                elif isinstance(n, ast.For):
+                    whole.update(names_in_target(n.target))
+                elif isinstance(n, ast.Delete):
+                    for t in n.targets:
+                        add(path_of(t))
+                elif isinstance(n, ast.Call):
+                    f = n.func
+                    if isinstance(f, ast.Attribute) and f.attr in MUTATORS:
+                        add(path_of(f.value))
+                        continue
+                    if not self.impure_call(n):
+                        continue
+                    name = f.attr if isinstance(f, ast.Attribute) else (f.id if isinstance(f, ast.Name) else None)
+                    cs = [c for k, c in self.registry.items() if k.split(":")[1].split(".")[-1] == name and not c.inline]
+                    exprs_all = ([f.value] if isinstance(f, ast.Attribute) else []) + list(n.args) + [k.value for k in n.keywords]
+                    inl = self.inline_candidates(name) if not cs else []
+                    if inl:
+                        # callee executed at the call site: its own stores, mapped from formal parameters to the actual expressions
+                        for cmod, cq, is_ctor in inl:
+                            fnode_c = cmod.functions[cq]
+                            formals = [a.arg for a in fnode_c.args.args]
+                            actuals = {}
+                            offset = 0
+                            if is_ctor:
+                                offset = 1              # self is the fresh object
+                            elif isinstance(f, ast.Attribute) and "." in cq:
+                                actuals[formals[0]] = f.value
+                                offset = 1
+                            for i_, a_ in enumerate(n.args):
+                                if i_ + offset < len(formals):
+                                    actuals[formals[i_ + offset]] = a_
+                            for kw in n.keywords:
+                                if kw.arg:
+                                    actuals[kw.arg] = kw.value
+                            saved_mod = self.frame.mod
+                            self.frame.mod = cmod
+                            try:
+                                w_c, p_c = self.havoc_plan(fnode_c.body)
+                            finally:
+                                self.frame.mod = saved_mod
+                            for w in w_c:
+                                if w in actuals and is_path(actuals[w]) and not (is_ctor and w == formals[0]):
+                                    pass        # rebinding a formal inside the callee does not touch the caller's object
+                            for (r_, at_) in p_c:
+                                if r_ in actuals and is_path(actuals[r_]) and not (is_ctor and r_ == formals[0]):
+                                    add(path_of(actuals[r_]), at_)
+                        continue
+                    if not cs:
+                        for e in exprs_all:
+                            if is_path(e):
+                                add((root_name(e), ()))
+                        continue
+                    for c in cs:
+                        pnames = list(c.params)
+                        is_method = "." in c.qual and pnames and pnames[0] == "self"
+                        for mpath in c.modifies:
+                            parts = mpath.split(".")
+                            p0, rest = parts[0], parts[1:]
+                            expr = None
+                            if is_method and p0 == "self" and isinstance(f, ast.Attribute):
+                                expr = f.value
+                            else:
+                                try:
+                                    mod_ = source.load(c.module)
+                                    fnode = mod_.functions.get(c.qual)
+                                    formal = [a.arg for a in fnode.args.args] if fnode is not None else pnames
+                                except Exception:
+                                    formal = pnames
+                                if is_method:
+                                    formal = formal[1:]
+                                if p0 in formal and formal.index(p0) < len(n.args):
+                                    expr = n.args[formal.index(p0)]
+                                for kw in n.keywords:
+                                    if kw.arg == p0:
+                                        expr = kw.value
+                            if expr is None or not is_path(expr):
+                                continue
+                            add(path_of(expr), rest)
+        return whole, paths
+
     def static_loop_ordinal(self, fr, node):
         fnode = fr.mod.functions.get(fr.qual)
         if fnode is None:
@@ -631,10 +772,23 @@ class Engine:
         for name, inv in spec.invariants:
             self.oblige("inv.init", f"loop{ordinal}.{name}", self.spec_eval(inv, env, old_env=self.entry_env0, extra={"entry": entry_env}), node)
         # 2. arbitrary iteration state: havoc everything the body may assign
-        targets = assigned_names(node.body, self.impure_call) | (names_in_target(node.target) if seq is not None else set())
-        for nm in sorted(targets):
+        whole, paths = self.havoc_plan(node.body)
+        if seq is not None:
+            whole |= names_in_target(node.target)
+        for nm in sorted(whole):
             if nm in env and nm != kname:
                 env[nm] = self.havoc_like(env[nm], nm)
+        for root, attrs in sorted(paths):
+            if root in whole or root not in env or root == kname:
+                continue
+            p = [("name", root)] + [("attr", a) for a in attrs]
+            try:
+                cur = self.read_path(p)
+            except (Unsupported, KeyError):
+                env[root] = self.havoc_like(env[root], root)
+                whole.add(root)
+                continue
+            self.write_path(p, self.havoc_like(cur, "_".join((root,) + attrs)))
         for path in spec.modifies:
             p = self.lvalue(ast.parse(path, mode="eval").body)
             self.write_path(p, self.havoc_like(self.read_path(p), path.replace(".", "_")))
@@ -678,7 +832,12 @@ class Engine:
         self.ex_block(node.orelse)
 
     def havoc_like(self, v, name):
-        t = type_of(v)
+        try:
+            t = type_of(v)
+        except Unsupported:
+            # a value whose type cannot be described (e.g. an object holding an empty list literal): after the havoc it may
+            # not be READ before it is assigned again; any use of the poison value makes the function unsupported (never silently wrong)
+            return Poison(name)
         return self.fresh(name, t)
 
     def concrete_items(self, it):
@@ -1343,7 +1502,8 @@ class Engine:
         g = node.generators[0]
         if not (isinstance(node.elt, ast.Name) and isinstance(g.target, ast.Name) and node.elt.id == g.target.id):
             raise Unsupported("filter comprehension whose element is not the loop variable")
-        xs = self.as_sequence(self.ev(g.iter))
+        itv = self.ev(g.iter)
+        xs = self.as_sequence(itv)
         if len(xs.t.sorts()) != 1:
             raise Unsupported("filter comprehension over structured elements")
         srt = xs.t.sorts()[0]
@@ -1351,7 +1511,15 @@ class Engine:
         saved = dict(self.frame.env)
         self.assign(g.target, x)
         n_dec = len(self.decisions)
+        j0 = z3.Int("_fj0")
+        n_pc = len(self.pc)
+        if isinstance(itv, SDict):
+            member = z3.Select(itv.dom, x)              # iterating a dict: the elements are exactly its keys
+        else:
+            member = z3.Exists([j0], z3.And(0 <= j0, j0 < xs.n, xs.comps[0][j0] == x))
+        self.pc.append(member)     # the filter only ever sees elements of xs
         conds = [truth(self.ev(c)) for c in g.ifs]
+        del self.pc[n_pc:]
         if len(self.decisions) != n_dec:
             raise Unsupported("branching inside a comprehension filter")
         self.frame.env.clear()
@@ -1363,7 +1531,7 @@ class Engine:
         arr = z3.Const(f"{tag}.arr", z3.ArraySort(z3.IntSort(), srt))
         pos = z3.Function(f"{tag}.pos", srt, z3.IntSort())
         i, j = z3.Int("_fi2"), z3.Int("_fj2")
-        inxs = z3.Exists([j], z3.And(0 <= j, j < xs.n, xs.comps[0][j] == x))
+        inxs = member
         self.assume(n >= 0)
         self.assume(z3.ForAll([i], z3.Implies(z3.And(0 <= i, i < n), z3.And(z3.substitute(B(cond), (x, arr[i])), z3.substitute(inxs, (x, arr[i])), pos(arr[i]) == i))))
         self.assume(z3.ForAll([x], z3.Implies(z3.And(inxs, B(cond)), z3.And(0 <= pos(x), pos(x) < n, arr[pos(x)] == x))))
@@ -1627,6 +1795,16 @@ class LoggerObj:
     """module-level LOGGER: calls have no effect on the verified state (messages are recorded as ghost events)"""
 
 
+class Poison:
+    """havoc'd value of undescribable type: must be re-assigned before use"""
+
+    def __init__(self, name):
+        self.name = name
+
+    def __repr__(self):
+        return f"Poison({self.name})"
+
+
 class AList(list):
     """dict literal with symbolic keys: association list (later entries win)"""
 
@@ -1814,4 +1992,10 @@ def type_of(v):
         return TRec(v.cls, **{f: type_of(x) for f, x in v.fields.items()})
     if isinstance(v, Opt):
         return TOpt(type_of(v.val))
+    if isinstance(v, dict) and not any(is_sym(x) for x in v.values()):
+        from .types import TConst
+        return TConst(dict(v))
+    if v is None:
+        from .types import TConst
+        return TConst(None)
     raise Unsupported(f"type of {type(v).__name__}")
